@@ -52,6 +52,11 @@ SeaAt(i, j)  == Loaded(i, j) /\ G.mask[j - G.j0 + 1][i - G.i0 + 1] > 0
 MaybeSea(x, y)  == \E i \in Cells(x), j \in Cells(y) : SeaAt(i, j)
 MaybeLand(x, y) == \E i \in Cells(x), j \in Cells(y) : ~SeaAt(i, j)
 
+\* grid spacing felt by a particle: that of its own cell when the step begins (tables of the loaded rectangle, metres);
+\* within TOL of a cell edge either neighbour's value is acceptable
+Metrics(x, y) == { <<G.dxt[j - G.j0 + 1][i - G.i0 + 1], G.dyt[j - G.j0 + 1][i - G.i0 + 1]>> :
+                      <<i, j>> \in { c \in Cells(x) \X Cells(y) : Loaded(c[1], c[2]) } }
+
 \* ------------------------------------------------------------------ advection (C01) and move outcome (C09)
 Stages == NStages(S.adv)                                          \* tableaux: Tableau.tla (order conditions: MC_Tableau)
 Clip(v, lo, hi) == IF v < lo THEN lo ELSE IF v > hi THEN hi ELSE v
@@ -65,8 +70,9 @@ StageFits(pre, k, cur, prev) ==
    /\ Len(cur.u) = Len(pre.pid) /\ Len(cur.v) = Len(pre.pid)
    /\ \A i \in 1..Len(pre.pid) : (Get(pre.alive, i) = TRUE) =>
         IF k = 1 THEN cur.x[i] = pre.x[i] /\ cur.y[i] = pre.y[i]
-        ELSE /\ NearClip(cur.x[i], ClipX(pre.x[i] + (prev.u[i] * G.dt * StageC2(k)) \div (G.dx * 2)))
-             /\ NearClip(cur.y[i], ClipY(pre.y[i] + (prev.v[i] * G.dt * StageC2(k)) \div (G.dy * 2)))
+        ELSE \E d \in Metrics(pre.x[i], pre.y[i]) :
+             /\ NearClip(cur.x[i], ClipX(pre.x[i] + (prev.u[i] * G.dt * StageC2(k)) \div (d[1] * 2)))
+             /\ NearClip(cur.y[i], ClipY(pre.y[i] + (prev.v[i] * G.dt * StageC2(k)) \div (d[2] * 2)))
 \* the scheme's stage evaluations must occur, in order, as a subsequence of the recorded velocity requests
 RECURSIVE FindStages(_, _, _, _)
 FindStages(pre, k, from, acc) ==          \* acc = indices matched so far
@@ -80,10 +86,10 @@ WSum(idx, i, k, comp) == IF k = 0 THEN 0 ELSE W6(S.adv, k) * (IF comp = 1 THEN v
 FinalUV(idx, i) == <<WSum(idx, i, Stages, 1) \div 6, WSum(idx, i, Stages, 2) \div 6>>          \* sum_k b_k U_k
 \* which disjunct explains the move of one particle: "killed" | "inactive" | "cancelled" | "moved" | "none"  (C09)
 \* (where exactly a moved particle ends is the separate clause move.displacement, C01)
-Target(p, uv) == <<p.x + (uv[1] * G.dt) \div G.dx, p.y + (uv[2] * G.dt) \div G.dy>>
-Outcome(p, uv, q) ==
-   LET cx == Target(p, uv)[1]
-       cy == Target(p, uv)[2]
+Target(p, uv, d) == <<p.x + (uv[1] * G.dt) \div d[1], p.y + (uv[2] * G.dt) \div d[2]>>
+Outcome1(p, uv, q, d) ==
+   LET cx == Target(p, uv, d)[1]
+       cy == Target(p, uv, d)[2]
        stay == q.x = p.x /\ q.y = p.y
        kept == q.alive = p.alive /\ q.active = p.active
    IN IF ~InGridSure(cx, cy) /\ ~q.alive /\ ~q.active /\ stay THEN "killed"
@@ -94,7 +100,11 @@ Outcome(p, uv, q) ==
       ELSE IF ~MaybeSea(cx, cy) THEN "none"                               \* moved onto land
       ELSE IF stay /\ ~(Near(cx, p.x) /\ Near(cy, p.y)) THEN "none"       \* held back for no reason
       ELSE "moved"
-Displaced(p, uv, q) == Near(q.x, Target(p, uv)[1]) /\ Near(q.y, Target(p, uv)[2])
+\* the outcome under the metric of the own cell (any admissible one that explains the move, if there is one)
+GoodMetrics(p, uv, q) == { d \in Metrics(p.x, p.y) : Outcome1(p, uv, q, d) # "none" }
+Outcome(p, uv, q) == IF GoodMetrics(p, uv, q) = {} THEN "none"
+                     ELSE Outcome1(p, uv, q, CHOOSE d \in GoodMetrics(p, uv, q) : TRUE)
+Displaced(p, uv, q) == \E d \in GoodMetrics(p, uv, q) : Outcome1(p, uv, q, d) = "moved" /\ Near(q.x, Target(p, uv, d)[1]) /\ Near(q.y, Target(p, uv, d)[2])
 
 \* ------------------------------------------------------------------ protocol
 Warm == S.warm
